@@ -145,6 +145,8 @@ def assigned_values(func, target_pat):
     """all (stmt, value) of assignments in func whose (single) target
     matches the pattern"""
     out = []
+    if target_pat.isidentifier():
+        target_pat = "@" + target_pat      # this very name
     for n in walk_no_nested(func):
         if isinstance(n, ast.Assign):
             for t in n.targets:
